@@ -252,7 +252,7 @@ fn run_damage(plan: &Value, rec: &mut Rec) {
     // the undamaged message must read cleanly (else nothing can be learned)
     let read = |s: Arc<Vec<u8>>| {
         let (input, _l) = seams::sim_bufread(s, Sched::Full, 8192, vec![]);
-        let spec = ReadSpec { armor: false, opener: opener.clone(), consumer: &consumer, verifiers: vec![], max, streaming_v1: streaming, v1_limit, opts: 0 };
+        let spec = ReadSpec { armor: false, opener: opener.clone(), consumer: &consumer, verifiers: vec![], max, streaming_v1: streaming, v1_limit, opts: 4 };
         guard(|| workload::read_message(input, &spec))
     };
     match read(Arc::new(stream.clone())) {
@@ -378,6 +378,15 @@ fn run_damage(plan: &Value, rec: &mut Rec) {
         match read(Arc::new(damaged.clone())) {
             Err(p) => rec.violation("panic", &norm_loc(&p.loc), format!("reading a damaged container panicked ({}): {}", m, p.msg), vplan.clone()),
             Ok(o) => {
+                // observation only: what a caller gets who reads on after the error
+                if let Some((n, clean)) = o.after_error {
+                    if n > 0 {
+                        rec.count("probe:message-reader-hands-out-octets-after-its-error");
+                    }
+                    if clean {
+                        rec.count("probe:message-reader-clean-end-after-its-error");
+                    }
+                }
                 if o.end.is_ok() {
                     rec.violation("clean-end-on-damaged-ciphertext", &site, format!("mutation {m}: the decrypted stream ended cleanly with {} bytes (payload {})", o.data.len(), payload.len()), vplan.clone());
                 } else if !v2 && !streaming && !o.data.is_empty() {
@@ -398,6 +407,14 @@ fn run_damage(plan: &Value, rec: &mut Rec) {
                         Err(p) => rec.violation("panic", &norm_loc(&p.loc), format!("StreamDecryptor panicked ({}): {}", m, p.msg), vplan.clone()),
                         Ok(None) => {}
                         Ok(Some((data, end))) => {
+                            if let Some((n, clean)) = POST_ERROR.with(|p| p.get()) {
+                                if n > 0 {
+                                    rec.count(if v2 { "probe:raw-v2-decryptor-hands-out-octets-after-its-error" } else { "probe:raw-v1-decryptor-hands-out-octets-after-its-error" });
+                                }
+                                if clean {
+                                    rec.count(if v2 { "probe:raw-v2-decryptor-clean-end-after-its-error" } else { "probe:raw-v1-decryptor-clean-end-after-its-error" });
+                                }
+                            }
                             if end.is_ok() {
                                 rec.violation("clean-end-on-damaged-ciphertext", &site, format!("mutation {m}: raw decryptor ended cleanly with {} bytes", data.len()), vplan.clone());
                             } else if v2 && !truth.starts_with(&data) {
@@ -413,9 +430,34 @@ fn run_damage(plan: &Value, rec: &mut Rec) {
     }
 }
 
+thread_local! {
+    /// (octets, clean end seen) that further reads produced after the raw decryptor's first error
+    static POST_ERROR: std::cell::Cell<Option<(usize, bool)>> = const { std::cell::Cell::new(None) };
+}
+
+/// observation only (the property speaks about the stream up to its failure): what a caller gets who
+/// reads on after the error
+fn read_on_after_error<R: std::io::Read>(d: &mut R) {
+    let mut n = 0usize;
+    let mut clean = false;
+    let mut buf = [0u8; 256];
+    for _ in 0..4096 {
+        match d.read(&mut buf) {
+            Ok(0) => {
+                clean = true;
+                break;
+            }
+            Ok(k) => n += k,
+            Err(_) => break,
+        }
+    }
+    POST_ERROR.with(|p| p.set(Some((n, clean))));
+}
+
 /// run packet::StreamDecryptor over a SEIPD packet body. None = parameters not usable.
 #[allow(clippy::type_complexity)]
 fn lowlevel_decrypt(body: &[u8], sk: &Option<PlainSessionKey>, consumer: &Consumer) -> Option<(Vec<u8>, Result<(), String>)> {
+    POST_ERROR.with(|p| p.set(None));
     let sk = sk.as_ref()?;
     let version = *body.first()?;
     match (version, sk) {
@@ -425,6 +467,9 @@ fn lowlevel_decrypt(body: &[u8], sk: &Option<PlainSessionKey>, consumer: &Consum
                 Err(e) => Some((vec![], Err(e.to_string()))),
                 Ok(mut d) => {
                     let (data, end) = seams::drain(&mut d, consumer, body.len() + 64);
+                    if end.is_err() {
+                        read_on_after_error(&mut d);
+                    }
                     Some((data, end.map_err(|e| e.to_string())))
                 }
             }
@@ -443,6 +488,9 @@ fn lowlevel_decrypt(body: &[u8], sk: &Option<PlainSessionKey>, consumer: &Consum
                 Err(e) => Some((vec![], Err(e.to_string()))),
                 Ok(mut d) => {
                     let (data, end) = seams::drain(&mut d, consumer, body.len() + 64);
+                    if end.is_err() {
+                        read_on_after_error(&mut d);
+                    }
                     Some((data, end.map_err(|e| e.to_string())))
                 }
             }
